@@ -22,7 +22,7 @@ type c04Scenario struct {
 }
 
 var c04Opts = genOpts{
-	MaxRules: 6, Phases: []int{1, 1, 2, 2, 5}, Disruptive: 5, Flow: true, Dyn: true, Chains: true,
+	MaxRules: 6, Phases: []int{1, 1, 2, 2, 5}, Disruptive: 5, Flow: true, Dyn: true, Chains: true, Ctl: true,
 	Capture: true, MultiMatch: true, Exclusions: true, RegexKeys: true, Counts: true,
 }
 
@@ -75,7 +75,13 @@ func c04Run(w *verifrt.World, tier Tier) *RunResult {
 		cfg.ArgLimit = 1 + t.Draw(4)
 	}
 	script := genScript(t, &reqOpts{Body: true, JSON: true, Uploads: true, MaxArgs: 6}, "c04")
-	text := cfg.Text()
+	cfg.Lines = append(cfg.Lines, "SecDataset ds1 `\nevil\nfoo\n`")
+	dump := cfg.DumpTX
+	cfg.DumpTX = false
+	text := cfg.Text() + strings.Join(c06Special(t), "\n") + "\n"
+	if dump {
+		text += fmt.Sprintf("SecRule TX \"@unconditionalMatch\" \"id:%d,phase:5,pass,nolog\"\n", dumpRuleID)
+	}
 	reps := 8
 	if tier == Thorough {
 		reps = 32
@@ -111,7 +117,12 @@ func c04Run(w *verifrt.World, tier Tier) *RunResult {
 		variant := "fresh"
 		if i%4 >= 2 {
 			variant = "reused"
+			// an unrelated request, then the request itself once more: the
+			// repetition must not depend on what the object did before
 			runTx(long, warm)
+			if i%8 >= 6 {
+				runTx(long, script)
+			}
 			got = runTx(long, script)
 		} else {
 			hh, err := buildWAF(text)
